@@ -31,13 +31,13 @@ func init() {
 	rtStub := []string{"host.Host/network (simhost)", "crawler.Crawler (stub reporting a drawn peer set, through fullrt.WithCrawler)", "pb.MessageSender (level A)"}
 	sim.Register(&sim.Scenario{Prop: "C16", Name: "fullrt-nearest", Weight: 3, Run: func(s *sim.Sim) { runC16Nearest(s, false) },
 		Real: rtReal, Stub: rtStub,
-		Faults: []string{"time_advance", "probe_read_during_crawl", "probe_crawl_replaced_table", "probe_limit_set_not_biting", "probe_result_shorter_than_k", "probe_crawl_by_trigger", "probe_crawl_by_interval"}})
+		Faults: []string{"time_advance", "probe_read_during_crawl", "probe_crawl_replaced_table", "probe_limit_set_not_biting", "probe_result_shorter_than_k", "probe_crawl_by_trigger", "probe_crawl_by_interval", "probe_peer_refound_in_other_ip_group", "probe_returned_peer_refound_in_other_ip_group"}})
 	sim.Register(&sim.Scenario{Prop: "C16", Name: "fullrt-ip-limit", Weight: 2, Run: func(s *sim.Sim) { runC16Nearest(s, true) },
 		Real: rtReal, Stub: rtStub,
-		Faults: []string{"probe_ip_group_over_limit", "probe_limit_precondition_holds"}})
+		Faults: []string{"probe_ip_group_over_limit", "probe_limit_precondition_holds", "probe_limit_precondition_changed_between_crawls"}})
 	sim.Register(&sim.Scenario{Prop: "C16", Name: "fullrt-swap-race", Weight: 3, Run: runC16SwapRace,
 		Real: rtReal, Stub: append([]string{"lock hand-over and lock-site yields (instrumented sync.RWMutex calls, scheduler-owned)"}, rtStub...),
-		Faults: []string{"lock_yield", "lock_contended", "probe_swap_raced_by_reader", "probe_reader_two_candidates"}})
+		Faults: []string{"lock_yield", "lock_contended", "probe_swap_raced_by_reader", "probe_reader_two_candidates", "probe_swap_changes_ip_groups"}})
 	crReal := append([]string{"crawler.DefaultCrawler inside FullRT (through fullrt.WithCrawler)"}, rtReal...)
 	crStub := []string{"host.Host/network (simhost)", "pb.MessageSender (level A, labels by bucket)", "remote peers (scripted referral graph with dial/query failures)"}
 	sim.Register(&sim.Scenario{Prop: "C16", Name: "fullrt-crawl", Weight: 2, Run: func(s *sim.Sim) { runC16FullCrawl(s, false) },
@@ -272,6 +272,54 @@ func c16PickPeers(u *simnet.Universe, rng *subRng, k int) []*simnet.Peer {
 	return out
 }
 
+// c16MoveProbes counts how crawl cur differs in its address assignment from
+// the crawl before it: a peer found by both in different IP groups; such a peer
+// that an earlier look-up has returned (anything derived from its addresses at
+// that time is out of date now); the limit's precondition (no IP group holds
+// more crawled peers than the limit) holding for one of the two crawls only.
+func c16MoveProbes(s *sim.Sim, prev, cur *c16Crawl, returned map[peer.ID]bool, L int) {
+	if prev == nil || prev.Idx == 0 {
+		return
+	}
+	if c16RefoundElsewhere(prev, cur) {
+		s.Count("probe_peer_refound_in_other_ip_group")
+	}
+	if c16RefoundElsewhere(prev, &c16Crawl{Peers: c16Filter(cur.Peers, returned), Addrs: cur.Addrs}) {
+		s.Count("probe_returned_peer_refound_in_other_ip_group")
+	}
+	if L > 0 {
+		_, a := prev.maxGroup()
+		_, b := cur.maxGroup()
+		if (a > L) != (b > L) {
+			s.Count("probe_limit_precondition_changed_between_crawls")
+		}
+	}
+}
+
+// c16RefoundElsewhere: some peer found by both crawls is in other IP groups in cur than in prev.
+func c16RefoundElsewhere(prev, cur *c16Crawl) bool {
+	was := map[peer.ID]string{}
+	for _, p := range prev.Peers {
+		was[p.ID] = strings.Join(c16Groups(prev.addrsOf(p)), "|")
+	}
+	for _, p := range cur.Peers {
+		if g, ok := was[p.ID]; ok && g != strings.Join(c16Groups(cur.addrsOf(p)), "|") {
+			return true
+		}
+	}
+	return false
+}
+
+func c16Filter(ps []*simnet.Peer, keep map[peer.ID]bool) []*simnet.Peer {
+	var out []*simnet.Peer
+	for _, p := range ps {
+		if keep[p.ID] {
+			out = append(out, p)
+		}
+	}
+	return out
+}
+
 // ---------------------------------------------------------------------------
 // fullrt-nearest / fullrt-ip-limit: stub crawler, reads between crawls
 
@@ -282,6 +330,14 @@ func c16PickPeers(u *simnet.Universe, rng *subRng, k int) []*simnet.Peer {
 // brute-force K nearest. crowded=true is the separate input class in which
 // groups exceed the limit (rules ip-group-limit*, gcp-nearest only where its
 // precondition holds).
+//
+// Between two crawls a drawn fraction of the peers changes addresses (other IP
+// groups; the input class - crowded or not - is kept): the stub crawler finds
+// them at the new ones, which replace the old ones in the host's peerstore.
+// Every read is judged under the address assignment of the crawl it must
+// reflect (c16Crawl.Addrs): "peers found by one single completed crawl ... at
+// most the configured number ... per IP group" speaks of where THAT crawl found
+// the peers, not of where an earlier crawl or an earlier look-up saw them.
 func runC16Nearest(s *sim.Sim, crowded bool) {
 	s.MaxSteps = 400
 	n := c16Size(s, [2]int{1, 5}, [2]int{4, 14}, [2]int{10, 40})
@@ -294,21 +350,26 @@ func runC16Nearest(s *sim.Sim, crowded bool) {
 	}
 	u := simnet.NewUniverse(uint64(s.Draw("universe", 1<<16)), n)
 	rng := newSubRng(s, "world")
+	maxPerGroup := 0 // crowded
 	switch {
 	case crowded:
-		c16AssignAddrs(u, rng, 0)
 	case L > 0:
-		c16AssignAddrs(u, rng, L)
+		maxPerGroup = L
 		s.Count("probe_limit_set_not_biting")
 	default:
-		c16AssignAddrs(u, rng, []int{0, n}[s.Draw("addr-spread", 2)])
+		maxPerGroup = []int{0, n}[s.Draw("addr-spread", 2)]
 	}
+	c16AssignAddrs(u, rng, maxPerGroup)
+	// How many peers are found at other addresses by the next crawl: none, a
+	// quarter, half of them. The class of the input (no group above the limit /
+	// crowded) is the same for every crawl of the run.
+	moveOf8 := []int{0, 2, 4}[s.Draw("addr-moves", 3)]
 	interval := []time.Duration{10 * time.Minute, time.Hour}[s.Draw("interval", 2)]
 	h := simhost.New(s, u.Self.ID, u.Self.Addrs, u.Name)
 	stub := &stubCrawler{S: s, H: h}
 	r, ctor := buildC16RT(s, u, h, c16RTOpts{Prefix: "/sim", K: K, SetK: true, L: L, SetL: true, Interval: interval,
 		BulkPar: s.Range("bulk-par", 1, 4), Boot: c16PickPeers(u, rng, s.Range("boot", 0, 2)), SetBoot: true, Crawler: stub, SetSender: true, SetValid: true})
-	s.Summary["cfg"] = fmt.Sprintf("N=%d K=%d limit=%d crowded=%v interval=%v", n, K, L, crowded, interval)
+	s.Summary["cfg"] = fmt.Sprintf("N=%d K=%d limit=%d crowded=%v interval=%v addrMoves=%d/8", n, K, L, crowded, interval, moveOf8)
 	if r.RT == nil {
 		s.Violate("ctor-failed", "NewFullRT with all options set failed: done=%v err=%v panic=%s", ctor.Done, ctor.Err, firstLine(ctor.Panic))
 		r.close()
@@ -316,10 +377,14 @@ func runC16Nearest(s *sim.Sim, crowded bool) {
 		return
 	}
 	invoked := func() bool { return parkedCrawl(s, "run") != nil }
+	returned := map[peer.ID]bool{} // peers some read of this run has returned so far
 	judge := func(what string, key string, c *c16Crawl) {
 		res, ok := r.read(key)
 		if !ok {
 			return
+		}
+		for _, p := range res {
+			returned[p] = true
 		}
 		s.Tracef("%s key=%s -> [%s]", what, key, names(u, res))
 		if rule, msg := c16JudgeGCP(u, res, simnet.KadOfKey(key), K, L, c); rule != "" {
@@ -354,8 +419,15 @@ func runC16Nearest(s *sim.Sim, crowded bool) {
 			judge("before-crawl", key(), prev)
 			reads++
 		}
+		if rd > 1 && moveOf8 > 0 {
+			// the network changes between two crawls: some peers are at other addresses now
+			k := c16MoveAddrs(u, rng, maxPerGroup, func(int) bool { return rng.Intn(8) < moveOf8 })
+			s.Tracef("%d peers changed IP groups", k)
+		}
 		spec := c16DrawSpec(s, u, rng)
-		cur := &c16Crawl{Idx: rd, Peers: spec.OK}
+		cur := newC16Crawl(rd, spec.OK)
+		spec.Addrs = cur.Addrs
+		c16MoveProbes(s, prev, cur, returned, L)
 		s.Tracef("crawl %d reports ok={%s} fail=%d", rd, names(u, simnet.IDs(spec.OK)), len(spec.Fail))
 		s.Release(run, spec)
 		s.Quiesce()
@@ -414,16 +486,19 @@ func runC16SwapRace(s *sim.Sim) {
 	L := s.Draw("limit", 3)
 	u := simnet.NewUniverse(uint64(s.Draw("universe", 1<<16)), n)
 	rng := newSubRng(s, "world")
-	if L > 0 {
-		c16AssignAddrs(u, rng, L)
-	} else {
-		c16AssignAddrs(u, rng, []int{0, n}[s.Draw("addr-spread", 2)])
+	maxPerGroup := L
+	if L <= 0 {
+		maxPerGroup = []int{0, n}[s.Draw("addr-spread", 2)]
 	}
+	c16AssignAddrs(u, rng, maxPerGroup)
+	// peers found at other addresses by the next crawl (see runC16Nearest): each
+	// candidate crawl is judged under its own address assignment
+	moveOf8 := []int{0, 2, 4}[s.Draw("addr-moves", 3)]
 	h := simhost.New(s, u.Self.ID, u.Self.Addrs, u.Name)
 	stub := &stubCrawler{S: s, H: h}
 	r, ctor := buildC16RT(s, u, h, c16RTOpts{Prefix: "/sim", K: K, SetK: true, L: L, SetL: true, Interval: time.Hour,
 		Boot: c16PickPeers(u, rng, s.Range("boot", 0, 2)), SetBoot: true, Crawler: stub, SetSender: true, SetValid: true})
-	s.Summary["cfg"] = fmt.Sprintf("N=%d K=%d limit=%d", n, K, L)
+	s.Summary["cfg"] = fmt.Sprintf("N=%d K=%d limit=%d addrMoves=%d/8", n, K, L, moveOf8)
 	if r.RT == nil {
 		s.Violate("ctor-failed", "NewFullRT with all options set failed: done=%v err=%v panic=%s", ctor.Done, ctor.Err, firstLine(ctor.Panic))
 		r.close()
@@ -444,8 +519,16 @@ func runC16SwapRace(s *sim.Sim) {
 			s.Violate("crawl-not-started", "the initial crawl was not started by NewFullRT")
 			break
 		}
+		if ph > 0 && moveOf8 > 0 {
+			k := c16MoveAddrs(u, rng, maxPerGroup, func(int) bool { return rng.Intn(8) < moveOf8 })
+			s.Tracef("%d peers changed IP groups", k)
+		}
 		spec := c16DrawSpec(s, u, rng)
-		cur := &c16Crawl{Idx: len(crawls), Peers: spec.OK}
+		cur := newC16Crawl(len(crawls), spec.OK)
+		spec.Addrs = cur.Addrs
+		if c16RefoundElsewhere(crawls[len(crawls)-1], cur) {
+			s.Count("probe_swap_changes_ip_groups")
+		}
 		s.Tracef("crawl %d reports ok={%s}", cur.Idx, names(u, simnet.IDs(spec.OK)))
 		s.Release(run, spec)
 		s.Quiesce() // callbacks made; the stub is parked before returning
